@@ -2,10 +2,11 @@ package rate
 
 import (
 	"fmt"
-	"regexp"
 	"strconv"
 	"strings"
 	"time"
+	"unicode"
+	"unicode/utf8"
 )
 
 func ParseRate(rateArg string) (int, time.Duration, error) {
@@ -25,7 +26,8 @@ func ParseRate(rateArg string) (int, time.Duration, error) {
 		if unitArg == "" {
 			return rate, unit, fmt.Errorf("unable to parse unit %s: missing duration", rateArg)
 		}
-		if !isNumeric(unitArg[0:1]) {
+		// a bare unit ("s", "ms") means one of it; anything else must be a duration as written
+		if first, _ := utf8.DecodeRuneInString(unitArg); unicode.IsLetter(first) {
 			unitArg = "1" + unitArg
 		}
 		unit, err = time.ParseDuration(unitArg)
@@ -45,9 +47,4 @@ func ParseRate(rateArg string) (int, time.Duration, error) {
 	}
 
 	return rate, unit, nil
-}
-
-func isNumeric(value string) bool {
-	re := regexp.MustCompile("^[0-9]+$")
-	return re.MatchString(value)
 }
